@@ -181,7 +181,10 @@ CLAIMED = {
     ),
     "C18": (
         "Coq proof (lock discipline for every fault position and every history of transfers by case analysis / induction; version bookkeeping of the reassembly by induction) + correspondence and fault-injection oracle on real Schedule/Zone objects with a scripted controller",
-        "8 theorems in coq/props/C18.v about coq/model/M_Transfer.v (= _obtain_lock/_release_lock around Schedule._get_schedule / "
+        "10 theorems in coq/props/C18.v about coq/model/M_Transfer.v (OVERHEARD traffic, Schedule._handle_msg: acknowledgements of schedule writes -- this gateway's or "
+        "another's -- and fragments arriving while the zone's own transfer holds the lock change nothing; hearing ANY traffic is feeding the reassembly exactly the "
+        "fragments among it, so nothing but a fragment ever enters the set (fix 920e60e; tied to the real _handle_msg on real RP / I 0404 messages under the three lock "
+        "states, and anchored in the source by AST); = _obtain_lock/_release_lock around Schedule._get_schedule / "
         "set_schedule with a fault -- an exchange raising, or the caller's timeout cancelling -- at any await; _update_payload_set over "
         "version-tagged fragments): whatever faults hit a transfer it never leaves the lock held; after ANY history of transfers the lock "
         "is free and no transfer ever waited for it; a schedule is only assembled from a full set of ONE version (under the idealisation "
